@@ -123,6 +123,11 @@ func c18Conf(c *fw.Case) (o fw.Outcome) {
 		}
 		cfg.QuoteStyle = pick(r, 0, 1)
 	}
+	if r.Intn(12) == 0 { // one very long value (a name nobody could use at NG Setup is still the configured name)
+		unit, n := pick(r, "gNB-", "x", "0"), pick(r, 1000, 4096, 65535, 65536, 70000, 300000)
+		cfg.GnbName = strings.Repeat(unit, n/len(unit)+1)[:n]
+		o.Tag("very-long-value")
+	}
 	y := cfg.YAML()
 	// shuffle the key lines and sprinkle comments: YAML mappings are unordered
 	lines := strings.Split(strings.TrimRight(y, "\n"), "\n")
@@ -132,7 +137,20 @@ func c18Conf(c *fw.Case) (o fw.Outcome) {
 	for _, l := range head {
 		sb.WriteString(l + "\n")
 	}
-	for _, l := range keys {
+	// a LARGE file: a block of comment lines somewhere between the keys, or one very long value - what lies behind the
+	// first 4 KiB / 64 KiB / 1 MiB of the file is configuration like the rest
+	bigAt, bigSize := -1, 0
+	if r.Intn(8) == 0 {
+		bigAt, bigSize = r.Intn(len(keys)), pick(r, 4096, 65536-200, 65536, 70000, 1<<20)
+		o.Tag(fmt.Sprintf("file:comment-block-%d", bigSize))
+	}
+	for li, l := range keys {
+		if li == bigAt {
+			line := "  # " + strings.Repeat("-", 75) + "\n"
+			for n := 0; n < bigSize; n += len(line) {
+				sb.WriteString(line)
+			}
+		}
 		if r.Intn(5) == 0 {
 			sb.WriteString("  # a comment\n")
 		}
